@@ -111,19 +111,21 @@ def c_str2bin_whole(c, pfx, alpha, L):
 
 
 def mask_cases(tier, seed):
-    nb = 10 if tier == "thorough" else 6
-    ms = list(range(1, 1 << nb))
+    r = random.Random(seed)
     if tier == "thorough":
-        r = random.Random(seed)
-        ms = list(range(1, 1 << 7)) + sorted(r.sample(range(1 << 7, 1 << nb), 120))
+        wide = [m for m in range(1 << 9, 1 << 12) if bin(m)[2:].count("0") <= 7]      # <= 7 wildcard bits (<= 128 ranges)
+        ms = list(range(1, 1 << 9)) + sorted(r.sample(wide, 300))
+    else:
+        ms = list(range(1, 1 << 7)) + sorted(r.sample(range(1 << 7, 1 << 10), 40))
     return [(m,) for m in ms]
 
 
 @contract("wildcard.valmask2binlist", ["C19"], ["vsc.impl.wildcard_bin_factory.WildcardBinFactory.valmask2binlist"],
-          mask_cases, max_paths=5000,
-          note="valmask2binlist: mask concrete (every mask below 2**6 quick; below 2**7 plus 120 seeded masks below 2**10 "
-               "thorough - a bound on the mask width), value an unbounded symbolic non-negative integer; pattern width = "
-               "bit length of the mask (the function has no other width information)")
+          mask_cases, max_paths=5000, backend="bv",
+          note="valmask2binlist: mask concrete (every mask below 2**7 plus 40 seeded masks below 2**10 quick; every mask below "
+               "2**9 plus 300 seeded masks below 2**12 with at most 7 wildcard bits thorough - a bound on the mask width), value a symbolic non-negative "
+               "integer below 2**96 (BV back end); pattern width = bit length of the mask (the function has no other width "
+               "information)")
 def c_valmask(c, mask):
     from vsc.impl.wildcard_bin_factory import WildcardBinFactory
     value = c.fresh_int("value", 0)
